@@ -15,6 +15,11 @@ BEHAVIOURS = {
     'return_nb_403': (403, False, 'return'),
     'return_nb_404': (404, False, 'return'),
     'uncaught': (500, True, 'uncaught'),
+    # HTTP errors that say nothing about breaking: an error ends the request unless it is *marked* non-breaking
+    'raise_404_unmarked': (404, True, 'raise-unmarked'),
+    'return_404_unmarked': (404, True, 'return-unmarked'),
+    'raise_410_unmarked': (410, True, 'raise-unmarked'),
+    'return_400_unmarked': (400, True, 'return-unmarked'),
 }
 
 
@@ -41,7 +46,7 @@ def path_matches(pattern, mode, path):
     key = pattern
     pe = _parsed.get(key)
     if pe is None:
-        pe = _parsed[key] = um.parse(pattern)
+        pe = _parsed[key] = um.parse(pattern, liberal_literals=True)
     elements, branch = pe
     return um.match(elements, branch, mode, path, 'strict')
 
